@@ -764,6 +764,12 @@ void Annotator::clearAllIds()
 
 void Annotator::clearAllIds(ModelPtr &model)
 {
+    if (model == nullptr) {
+        // Nothing to clear, and no reason to forget the model this annotator works with.
+        pFunc()->removeAllIssues();
+        pFunc()->addIssueNoModel();
+        return;
+    }
     pFunc()->mModel = model;
     clearAllIds();
 }
